@@ -244,23 +244,29 @@ def build_valid(h, rng, cap):
 
 
 DAMAGE_KINDS = ["unsorted_leaf", "unsorted_branch", "dup_leaf", "dup_branch", "count_vpop", "count_kpop",
-                "count_pushk", "overfill", "underfill_leaf", "underfill_branch", "keyout_lo", "keyout_hi",
+                "count_pushk", "count_pushv", "overfill", "underfill_leaf", "underfill_branch", "keyout_lo", "keyout_hi",
                 "child_pop", "child_dup", "badref_child", "badref_root", "chain_trunc", "chain_skip",
                 "chain_misorder", "chain_unalloc", "orphan_leaf", "orphan_branch", "none"]
 
 
 def damage_lines(kind, rng, cap, h):
-    p = rng.choice([0, 0, 1, 1, 2, 3, 5])
-    bp = rng.choice([0, 0, 1, 2])
+    # positions and indexes are drawn blindly; an edit that does not apply is a no-op.
+    # wide ranges so that last children / rightmost leaves / last keys are hit as well
+    p = rng.choice([0, 0, 1, 1, 2, 3, 4, 5, 6, 7, 9, 12])
+    bp = rng.choice([0, 0, 1, 2, 3, 4])
+    ki = rng.randrange(0, cap)
     if kind == "unsorted_leaf":
-        return [rng.choice([f"DMG LK {p} 1 {-BIG}", f"DMG LK {p} 0 {BIG}"])]
+        return [rng.choice([f"DMG LK {p} 1 {-BIG}", f"DMG LK {p} 0 {BIG}", f"DMG LK {p} {ki + 1} {-BIG}", f"DMG LK {p} {ki} {BIG}"])]
     if kind == "unsorted_branch":
-        return [rng.choice([f"DMG BK {bp} 1 {-BIG}", f"DMG BK {bp} 0 {BIG}"])]
+        return [rng.choice([f"DMG BK {bp} 1 {-BIG}", f"DMG BK {bp} 0 {BIG}", f"DMG BK {bp} {ki + 1} {-BIG}", f"DMG BK {bp} {ki} {BIG}"])]
     if kind == "dup_leaf":
-        i = rng.choice([0, 1])
+        i = rng.choice([0, 1, ki])
         return [f"DMG LKC {p} {i + 1} {i}"]
     if kind == "dup_branch":
-        return [f"DMG BKC {bp} 1 0"]
+        i = rng.choice([0, ki])
+        return [f"DMG BKC {bp} {i + 1} {i}"]
+    if kind == "count_pushv":
+        return [f"DMG LPUSHV {p} {h.sid * 10}"]
     if kind == "count_vpop":
         return [f"DMG LVPOP {p}"]
     if kind == "count_kpop":
@@ -334,12 +340,14 @@ def gen_c15(seed, shard, n_hist, tier):
         unsorted_possible = False
         for _ in range(rng.choice([1, 1, 2, 3])):
             p = rng.choice([0, 0, 1, 2, 3])
-            k = rng.choice(["LPUSHK", "LPUSHK", "LVPOP", "LKPOP", "LPUSH", "LTRUNC", "LK", "LNEXT_RAW", "LNEXT_FWD",
+            k = rng.choice(["LPUSHK", "LPUSHK", "LPUSHV", "LVPOP", "LKPOP", "LPUSH", "LTRUNC", "LK", "LNEXT_RAW", "LNEXT_FWD",
                             "LNEXT_NULL", "FREEL", "FREEL_NEXT", "ORPHANL", "ROOT_NULL", "ROOT_RAW", "FREEB"])
             if k in ("LPUSHK", "LPUSH", "LK"):
                 unsorted_possible = True
             if k == "LPUSHK":
                 h.add(f"DMG LPUSHK {p} {rng.randrange(-5, U + 5)} {h.sid}")
+            elif k == "LPUSHV":
+                h.add(f"DMG LPUSHV {p} {h.sid * 10}")
             elif k == "LPUSH":
                 h.add(f"DMG LPUSH {p} {rng.randrange(-5, U + 5)} {h.sid} {h.sid * 10}")
             elif k == "LTRUNC":
